@@ -76,6 +76,12 @@ def gen_case(run_seed, tier):
         else:
             hist.append([k])
     case = {"ne": ne, "np": np_, "nc": nc, "history": hist}
+    if sz.random() < 0.08:
+        # a wide circuit (two-digit register indices: edge keys "e1" and "e10" ... start to share prefixes), with most
+        # operations concentrated on a few registers so that the wires still interact
+        t = sz.choice("ep")
+        case["ne" if t == "e" else "np"] = sz.randint(11, 13)
+        case["hot"] = [[t, 1], [t, sz.choice([10, 10, 11, 12]) if sz.random() < 0.8 else 2], [t, sz.choice([0, 11, 12])], ["e", 0]]
     if sz.random() < 0.12:
         # start from a circuit that went through the JSON export/import (operations rebuilt through their setters)
         case["start_json"] = [h for h in hist[: sz.randint(3, 12)] if h[0] == "add"]
@@ -166,6 +172,19 @@ def resolve(m, ok, names, a):
     regs = m.regs()
     nq = len(regs)
     nc = m.cnt["c"]
+    hot = sorted({regs.index(tuple(h)) for h in (getattr(m, "hot", None) or []) if tuple(h) in regs})
+    if hot:
+        # registers drawn from the hot set three times out of four
+        a = list(a)
+        for i in (1, 2):
+            if (a[i] // 7) % 4:
+                a[i] = hot[a[i] % len(hot)] if i == 1 else a[i]
+        if (a[2] // 7) % 4 and len(hot) > 1:
+            ci = a[1] % nq
+            others = [i for i in range(nq) if i != ci]
+            want = [h for h in hot if h != ci]
+            if want:
+                a[2] = others.index(want[a[2] % len(want)])
     if ok == "g1":
         t, r = regs[a[1] % nq]
         return ["g1", gq.NAMES1[a[0] % 7], t, r]
@@ -392,6 +411,9 @@ def run_case(case):
     if circ is None:
         circ = gq.CircuitDAG(n_emitter=case["ne"], n_photon=case["np"], n_classical=case["nc"])
         m = Model(case["ne"], case["np"], case["nc"])
+    if case.get("hot"):
+        m.hot = case["hot"]
+        ctx.probe("wide_circuit_two_digit_registers")
     did = {"ins2": 0, "rm": 0, "rw": 0}
     ok = check_invariants(ctx, -1, circ, m, "init")
     for step, st in enumerate(case["history"]):
